@@ -665,6 +665,11 @@ func (ls *LState) raiseError(level int, format string, args ...interface{}) {
 }
 
 func (ls *LState) findLocal(frame *callFrame, no int) string {
+	if no < 1 {
+		// locals are numbered from 1: 0 and negative numbers name nothing
+		// (they would address registers below the frame)
+		return ""
+	}
 	fn := frame.Fn
 	if !fn.IsG {
 		if name, ok := fn.LocalName(no, frame.Pc-1); ok {
